@@ -8,6 +8,10 @@ from vlib import gen
 from vlib.ref import plane_model as pm
 from vlib.runner import Skip, Violation, hyp, lentil_call
 
+# the check's own calls are issued with keywords or positionally in the documented order (vlib/callforms.py)
+from vlib import callforms as _cf
+lentil = _cf.proxy(lentil)
+
 RULE = ("complex pupil fields on drawn shapes with commensurate samplings (integer 1/alpha = N_r, N_c >= input "
         "size, possibly N_r != N_c), oversampling 1-4, DFT and FFT propagators, chains of nested centred windows, "
         "target powers 1e-6..1e6; non-trivial = at least 3 non-zero input samples; distinct = distinct descriptors")
